@@ -763,7 +763,10 @@ class EbuildProcessor:
             elif "'" not in val:
                 assign = f"{key}='{val}'"
             else:
-                assign = f"{key}=$'{val.replace("'", "\\'")}'"
+                # $'...' interprets backslash escapes, so literal backslashes
+                # must be escaped (first) as well as the quote itself
+                escaped = val.replace("\\", "\\\\").replace("'", "\\'")
+                assign = f"{key}=$'{escaped}'"
 
             (plain if key in nonexported else exported).append(assign)
 
